@@ -60,6 +60,9 @@ func matchKnown(k *KnownFindings, id, obl string) *KnownFinding {
 		if strings.HasSuffix(f.Obligation, "*") && strings.HasPrefix(obl, strings.TrimSuffix(f.Obligation, "*")) {
 			return f
 		}
+		if strings.HasPrefix(f.Obligation, "*") && strings.Contains(obl, strings.Trim(f.Obligation, "*")) {
+			return f
+		}
 	}
 	return nil
 }
